@@ -324,7 +324,8 @@ func TestBinErrors(t *testing.T) {
 		{"negative zero L=1", v + "31 00", "bin.negative-zero-int", false},
 		{"negative zero L=2", v + "32 00 00", "bin.negative-zero-int", false},
 		{"float L=2", v + "42 00 00", "bin.float-bad-length", false},
-		{"float L=14", v + "4E 88 00 00 00 00 00 00 00 00", "bin.float-bad-length", false},
+		{"float L=14 length 8", v + "4E 88 00 00 00 00 00 00 00 00", "bin.float-varuint-length", true},
+		{"float L=14 length 3", v + "4E 83 00 00 00", "bin.float-bad-length", false},
 		{"decimal exponent 2^31", v + "55 08 00 00 00 80", "bin.decimal-exponent-range", true},
 		{"decimal exponent unterminated", v + "51 00", "bin.subfield-overruns-value", false},
 		{"ts hour only", v + "66 80 0F D0 81 81 80", "bin.ts-hour-without-minute", false},
